@@ -202,8 +202,11 @@ func observe(ctx context.Context, s *side) string {
 		"!l":        {state.WithLabelQuery(resource.LabelExists("l", resource.NotMatches))},
 		"l<2 | l=2": {state.WithLabelQuery(resource.LabelLTNumeric("l", "2")), state.WithLabelQuery(resource.LabelEqual("l", "2"))},
 		"id~^a":     {state.WithIDQuery(resource.IDRegexpMatch(regexp.MustCompile("^a")))},
+		"l!=0 & l":  {state.WithLabelQuery(resource.LabelEqual("l", "0", resource.NotMatches), resource.LabelExists("l"))},
+		"!l & !zz":  {state.WithLabelQuery(resource.LabelExists("l", resource.NotMatches), resource.LabelExists("zz", resource.NotMatches))},
+		"!zz & l<9": {state.WithLabelQuery(resource.LabelExists("zz", resource.NotMatches), resource.LabelLTNumeric("l", "9"))},
 	}
-	for _, k := range []string{"all", "l=0", "!l", "l<2 | l=2", "id~^a"} {
+	for _, k := range []string{"all", "l=0", "!l", "l<2 | l=2", "id~^a", "l!=0 & l", "!l & !zz", "!zz & l<9"} {
 		l, err := s.st.List(ctx, hx.IntKind(), lists[k]...)
 		fmt.Fprintf(&b, "list[%s]: %s %s; ", k, errObs(err), hx.SnapList(l))
 	}
@@ -216,7 +219,7 @@ func observe(ctx context.Context, s *side) string {
 		got  []string
 	}
 	wctx, cancel := context.WithCancel(ctx)
-	ws := []*w{{name: "watch-a"}, {name: "kind-bootstrap"}, {name: "agg-tail2"}, {name: "kind-label"}, {name: "watch-a-tail1"}}
+	ws := []*w{{name: "watch-a"}, {name: "kind-bootstrap"}, {name: "agg-tail2"}, {name: "kind-label"}, {name: "watch-a-tail1"}, {name: "agg-2terms"}}
 	for _, x := range ws {
 		x.ch, x.ach = make(chan state.Event), make(chan []state.Event)
 	}
@@ -225,6 +228,7 @@ func observe(ctx context.Context, s *side) string {
 	ws[2].err = s.st.WatchKindAggregated(wctx, hx.IntKind(), ws[2].ach, state.WithKindTailEvents(2))
 	ws[3].err = s.st.WatchKind(wctx, hx.IntKind(), ws[3].ch, state.WithBootstrapContents(true), state.WatchWithLabelQuery(resource.LabelExists("l")))
 	ws[4].err = s.st.Watch(wctx, hx.IntPtr("a"), ws[4].ch, state.WithTailEvents(1))
+	ws[5].err = s.st.WatchKindAggregated(wctx, hx.IntKind(), ws[5].ach, state.WithBootstrapContents(true), state.WatchWithLabelQuery(resource.LabelExists("zz", resource.NotMatches), resource.LabelExists("l")))
 	for _, x := range ws {
 		x := x
 		if x.err != nil {
